@@ -191,6 +191,15 @@ def scenario_of(c):
                    oftf=0.012 * n + 0.03,
                    corr=(c['ff'], c['fs'], c['mix']),
                    spacer=sp, regions=regions)
+    if c.get('scale'):
+        # an exact scale model: every cross-section length times a power of two (all ratios bit-identical)
+        k = float(c['scale'])
+        for key in ('pin_pitch', 'pin_diameter', 'clad_thickness', 'wire_diameter', 'wire_pitch'):
+            dsn[key] = dsn[key] * k
+        dsn['duct_ftf'] = [x * k for x in dsn['duct_ftf']]
+    if c.get('wire_scale'):
+        # the same pins, pitch, lead and duct with a thinner wire (P/D, H/D and W/D unchanged)
+        dsn['wire_diameter'] = round(dsn['wire_diameter'] * float(c['wire_scale']), 9)
     return S.single(dsn, 1.0, length=LENGTH + zoff, coolant=COOLANT,
                     power={'rings': n, 'nduct': 1, 'cells': [0.0, LENGTH + zoff],
                            'q': 1000.0, 'pins': 'uniform'})
@@ -459,6 +468,9 @@ def run_case(c):
         base['zoff'] = c['zoff']
     if c.get('phantom'):
         base['phantom'] = True
+    for k in ('scale', 'wire_scale'):
+        if c.get(k):
+            base[k] = c[k]
     ex = {'accept': {}, 'levels': {}, 'dpdz': {}, 'bundle_eq': 0, 'passed_by_x_distance': 0, 'approx_fallback_levels': 0,
           'exact_hits': 0, 'exact_miss': 0, 'construct_rejected': {}}
     r['extra'] = ex
@@ -836,6 +848,7 @@ def main(run):
     results = run.explore('combos', cs, run_case, budget_s=120)
     run.explore('reader', reader_cases(run.tier), run_case, budget_s=120)
     run.explore('clones', clone_cases(run.tier), run_clones, budget_s=300, chunksize=1)
+    run.explore('pair', pair_cases(run.tier), run_pair, budget_s=300, chunksize=1)
     # the summary table of dassh.out through which a user reads this property (vf/props/reports.py)
     from . import reports
     run.explore('report-flow', reports.cases_flow(run.tier), reports.run_flow, budget_s=300)
@@ -877,10 +890,62 @@ def main(run):
                 'vacuous-alphabet', {'class': k}, 'counter %s is zero' % k), part='combos'))
 
 
+def pair_cases(tier):
+    """a bundle and its 2:1 (4:1) scale model - or the same bundle with a thinner wire - evaluated one after the other in
+    ONE process, in both orders: the
+    correlations are functions of ratios, their constants are not (areas, 1/m boundaries) - whatever an earlier
+    bundle leaves behind in the process must not reach the next one"""
+    out = []
+    ds = [d for d in designs('quick') if d['clr'] in ('tight', 'mid')][:4 if tier == 'quick' else 6]
+    for d in ds:
+        for fam in CT:
+            for k in ((2.0,) if tier == 'quick' else (2.0, 4.0, 0.5)):
+                for first in ('model', 'original'):
+                    c = dict(d)
+                    c.update({'probe': 'pair', 'grid': 'none', 'ff': fam, 'fs': fam, 'mix': fam, 'k': k, 'first': first})
+                    out.append(c)
+            if d['wire']:
+                # and the same bundle with a wire of 3/4 (1/2) the diameter: same ring count, P/D, H/D and W/D
+                for k in ((0.75,) if tier == 'quick' else (0.75, 0.5)):
+                    for first in ('model', 'original'):
+                        c = dict(d)
+                        c.update({'probe': 'pair', 'how': 'wire', 'grid': 'none', 'ff': fam, 'fs': fam, 'mix': fam, 'k': k,
+                                  'first': first})
+                        out.append(c)
+    return out
+
+
+def run_pair(c):
+    base = {k_: v for k_, v in c.items() if k_ not in ('probe', 'k', 'first', 'how')}
+    other = dict(base, wire_scale=c['k']) if c.get('how') == 'wire' else dict(base, scale=c['k'])
+    seq = [other, base] if c['first'] == 'model' else [base, other]
+    r = None
+    for i, cc in enumerate(seq):
+        ri = run_case(cc)
+        for v in ri['violations']:
+            v['scenario'] = dict(v.get('scenario') or {}, probe='pair', k=c['k'], first=c['first'], member=i)
+        if r is None:
+            r = ri
+        else:
+            r['violations'] += ri['violations']
+            for key in ('states', 'transitions', 'traces'):
+                r[key] = r.get(key, 0) + ri.get(key, 0)
+            r['nontrivial'] = bool(r.get('nontrivial') and ri.get('nontrivial'))
+    r['outcome'] = 'ok' if not r['violations'] else 'violations'
+    return r
+
+
 def replay(body):
     if str((body.get('scenario') or {}).get('probe', '')).startswith('report-'):
         from . import reports
         return reports.replay(body)
+    if body['scenario'].get('probe') == 'pair':
+        sc = {k_: v for k_, v in body['scenario'].items() if k_ not in ('member', 'level', 'scale', 'wire_scale')}
+        r = guarded(run_pair, sc, 600)
+        for v in r['violations']:
+            print('VIOLATION property=C12 replay=(inline) kind=%s site=%s %s' % (v['kind'], v.get('site'), v['what']))
+        print('outcome', r['outcome'])
+        return 1 if r['violations'] else 0
     fn = run_clones if body['scenario'].get('probe') == 'clones' else run_case
     r = guarded(fn, body['scenario'], 600)
     for v in r['violations']:
